@@ -39,6 +39,9 @@ pub struct ScriptedMatcher {
     script: std::rc::Rc<Script>,
     idx: usize,
     last: Vec<u8>,
+    /// set when the compressor asks for the sequences of a space that is not the scripted one
+    /// (it did not account for every space it was handed with commit + skip/start)
+    desync: std::rc::Rc<std::cell::Cell<Option<(usize, usize, usize)>>>,
 }
 
 impl Matcher for ScriptedMatcher {
@@ -58,7 +61,12 @@ impl Matcher for ScriptedMatcher {
         self.idx += 1;
     }
     fn start_matching(&mut self, mut handle_sequence: impl for<'a> FnMut(Sequence<'a>)) {
-        let b = &self.script.blocks[self.idx];
+        let Some(b) = self.script.blocks.get(self.idx).filter(|b| b.len == self.last.len()) else {
+            self.desync.set(Some((self.idx, self.script.blocks.get(self.idx).map(|b| b.len).unwrap_or(0), self.last.len())));
+            handle_sequence(Sequence::Literals { literals: &self.last });
+            self.idx += 1;
+            return;
+        };
         let mut pos = 0usize;
         for s in &b.seqs {
             handle_sequence(Sequence::Triple {
@@ -120,10 +128,175 @@ pub struct RefParseCase {
     pub wlog: u32,
 }
 
+/// A matcher that knows nothing but what the compressor hands it: it keeps the committed spaces as
+/// its history and finds matches in them by itself (greedy, hash of `min_match` bytes).
+#[derive(Clone, Debug, Serialize, Deserialize)]
+pub struct TrackingCase {
+    pub data: DataSpec,
+    /// length of the spaces it hands out (capped by the window and 128 KiB)
+    pub space: u32,
+    pub window_log: u8,
+    pub window_extra: u32,
+    /// 3..=6
+    pub min_match: u8,
+    pub uncompressed_level: bool,
+    /// frames compressed with the same compressor + matcher (reset in between)
+    pub frames: u8,
+}
+
 #[derive(Clone, Debug, Serialize, Deserialize)]
 pub enum Case {
     Generated(ParseCase),
     Reference(RefParseCase),
+    Tracking(TrackingCase),
+}
+
+pub struct TrackingMatcher {
+    window: usize,
+    space: usize,
+    min_match: usize,
+    /// everything committed since the last reset
+    hist: Vec<u8>,
+    /// start of the last committed space inside `hist`
+    cur: usize,
+    last: Vec<u8>,
+    /// hash of min_match bytes -> most recent position in `hist`
+    table: std::collections::HashMap<u64, usize>,
+    /// positions below this are already in the table
+    indexed: usize,
+    pub stats: std::rc::Rc<std::cell::Cell<(u64, u64, u64)>>, // (matches, matches reaching into an earlier space, skipped spaces)
+}
+
+impl TrackingMatcher {
+    fn key(&self, at: usize) -> Option<u64> {
+        if at + self.min_match > self.hist.len() {
+            return None;
+        }
+        let mut k = 0u64;
+        for b in &self.hist[at..at + self.min_match] {
+            k = (k << 8) | *b as u64;
+        }
+        Some(k)
+    }
+    fn index_upto(&mut self, end: usize) {
+        while self.indexed < end {
+            if let Some(k) = self.key(self.indexed) {
+                self.table.insert(k, self.indexed);
+            }
+            self.indexed += 1;
+        }
+    }
+}
+
+impl Matcher for TrackingMatcher {
+    fn get_next_space(&mut self) -> Vec<u8> {
+        vec![0; self.space]
+    }
+    fn get_last_space(&mut self) -> &[u8] {
+        &self.last
+    }
+    fn commit_space(&mut self, space: Vec<u8>) {
+        self.cur = self.hist.len();
+        self.hist.extend_from_slice(&space);
+        self.last = space;
+    }
+    fn skip_matching(&mut self) {
+        let mut st = self.stats.get();
+        st.2 += 1;
+        self.stats.set(st);
+        // the skipped data stays part of the history (it is part of the stream)
+        let end = self.hist.len();
+        self.index_upto(end.saturating_sub(self.min_match - 1));
+    }
+    fn start_matching(&mut self, mut handle_sequence: impl for<'a> FnMut(Sequence<'a>)) {
+        let end = self.hist.len();
+        let mut pos = self.cur;
+        let mut lit_start = self.cur;
+        let mut st = self.stats.get();
+        while pos < end {
+            self.index_upto(pos);
+            let cand = self.key(pos).and_then(|k| self.table.get(&k).copied());
+            let mut taken = false;
+            if let Some(c) = cand {
+                let off = pos - c;
+                if off >= 1 && off <= self.window {
+                    let mut ml = 0usize;
+                    while pos + ml < end && self.hist[c + ml] == self.hist[pos + ml] {
+                        ml += 1;
+                    }
+                    if ml >= self.min_match.max(3) {
+                        handle_sequence(Sequence::Triple { literals: &self.last[lit_start - self.cur..pos - self.cur], offset: off, match_len: ml });
+                        st.0 += 1;
+                        if c < self.cur {
+                            st.1 += 1;
+                        }
+                        pos += ml;
+                        lit_start = pos;
+                        taken = true;
+                    }
+                }
+            }
+            if !taken {
+                pos += 1;
+            }
+        }
+        if lit_start < end {
+            handle_sequence(Sequence::Literals { literals: &self.last[lit_start - self.cur..] });
+        }
+        self.stats.set(st);
+        self.index_upto(end.saturating_sub(self.min_match - 1));
+    }
+    fn reset(&mut self, _level: CompressionLevel) {
+        self.hist.clear();
+        self.table.clear();
+        self.last.clear();
+        self.cur = 0;
+        self.indexed = 0;
+    }
+    fn window_size(&self) -> u64 {
+        self.window as u64
+    }
+}
+
+fn check_tracking(tc: &TrackingCase, ctx: &mut CaseCtx) -> CaseResult {
+    let data = tc.data.render();
+    let window = ((1u64 << tc.window_log) + (tc.window_extra as u64 % (1u64 << tc.window_log))) as usize;
+    let space = (tc.space as usize).clamp(1, BLK).min(window);
+    let stats = std::rc::Rc::new(std::cell::Cell::new((0u64, 0u64, 0u64)));
+    let matcher = TrackingMatcher { window, space, min_match: tc.min_match.clamp(3, 6) as usize, hist: vec![], cur: 0, last: vec![], table: Default::default(), indexed: 0, stats: stats.clone() };
+    let level = if tc.uncompressed_level { CompressionLevel::Uncompressed } else { CompressionLevel::Fastest };
+    let mut comp: FrameCompressor<&[u8], Vec<u8>, TrackingMatcher> = FrameCompressor::new_with_matcher(matcher, level);
+    let mut parts: Vec<Vec<u8>> = vec![];
+    for f in 0..tc.frames.clamp(1, 3) {
+        // later frames of the same compressor see the data from a different starting point
+        let from = (f as usize * 1021) % data.len().max(1);
+        let input = &data[from.min(data.len())..];
+        comp.set_source(input);
+        comp.set_drain(Vec::new());
+        comp.compress();
+        let out = comp.take_drain().unwrap();
+        verify_frame(input, &out, &format!("history-keeping matcher (window {window}, spaces of {space}, frame #{f})"))?;
+        let info = frame::walk(&out, &WalkOpts::default()).map_err(|e| Failure::new("malformed_frame", format!("strict walker rejects the frame: {e}; frame {}", hexhead(&out))))?;
+        ensure!(info.header.window_size >= window as u64, "window_too_small", "frame declares window {} but the matcher advertised {window}", info.header.window_size);
+        for b in &info.blocks {
+            ctx.feat(match b.btype {
+                0 => "tracking:block_raw",
+                1 => "tracking:block_rle",
+                _ => "tracking:block_compressed",
+            });
+        }
+        parts.push(out);
+    }
+    let st = stats.get();
+    ctx.feat("script:history_keeping_matcher");
+    ctx.feat_if(st.1 > 0, "tracking:match_reaches_into_an_earlier_space");
+    ctx.feat_if(st.2 > 0, "tracking:space_skipped_by_the_compressor");
+    ctx.feat_if(tc.frames > 1, "tracking:matcher_reused_after_reset");
+    ctx.feat_if(tc.uncompressed_level, "level:uncompressed");
+    ctx.nontrivial = st.1 > 0;
+    let refs: Vec<&[u8]> = parts.iter().map(|p| p.as_slice()).collect();
+    ctx.set_hash_bytes(&refs);
+    Ok(())
 }
 
 fn shape_strategy() -> impl Strategy<Value = Shape> {
@@ -147,6 +320,16 @@ fn case_strategy(tier: Tier) -> impl Strategy<Value = Case> {
     prop_oneof![
         5 => (10u8..=23, prop_oneof![2 => Just(0u32), 3 => any::<u32>()], prop::collection::vec(shape_strategy(), 1..=maxb), any::<u32>(), prop::bool::weighted(0.08))
             .prop_map(|(window_log, window_extra, blocks, seed, uncompressed_level)| Case::Generated(ParseCase { window_log, window_extra, blocks, seed, uncompressed_level })),
+        3 => (
+            data_strategy(120_000),
+            prop_oneof![3 => 16u32..=300, 3 => 300u32..=5000, 1 => Just(65_536u32), 1 => Just(131_072u32), 1 => 1u32..=15],
+            10u8..=19,
+            prop_oneof![2 => Just(0u32), 3 => any::<u32>()],
+            3u8..=6,
+            prop::bool::weighted(0.08),
+            prop_oneof![4 => Just(1u8), 1 => 2u8..=3],
+        )
+            .prop_map(|(data, space, window_log, window_extra, min_match, uncompressed_level, frames)| Case::Tracking(TrackingCase { data, space, window_log, window_extra, min_match, uncompressed_level, frames })),
         1 => (data_strategy(400_000), 1i32..=19, prop_oneof![Just(0u32), 10u32..=20]).prop_map(|(mut data, level, wlog)| {
             if data.len % (BLK as u32) < 16 {
                 data.len += 16;
@@ -354,6 +537,9 @@ fn reference_script(rc: &RefParseCase) -> Option<Script> {
 }
 
 pub fn check(case: &Case, ctx: &mut CaseCtx) -> CaseResult {
+    if let Case::Tracking(tc) = case {
+        return check_tracking(tc, ctx);
+    }
     let (script, uncompressed) = match case {
         Case::Generated(pc) => (render(pc), pc.uncompressed_level),
         Case::Reference(rc) => match reference_script(rc) {
@@ -363,15 +549,20 @@ pub fn check(case: &Case, ctx: &mut CaseCtx) -> CaseResult {
                 return Ok(());
             }
         },
+        Case::Tracking(_) => unreachable!(),
     };
     let script = std::rc::Rc::new(script);
-    let matcher = ScriptedMatcher { script: script.clone(), idx: 0, last: vec![] };
+    let desync = std::rc::Rc::new(std::cell::Cell::new(None));
+    let matcher = ScriptedMatcher { script: script.clone(), idx: 0, last: vec![], desync: desync.clone() };
     let level = if uncompressed { CompressionLevel::Uncompressed } else { CompressionLevel::Fastest };
     let mut comp: FrameCompressor<&[u8], Vec<u8>, ScriptedMatcher> = FrameCompressor::new_with_matcher(matcher, level);
     comp.set_source(&script.data[..]);
     comp.set_drain(Vec::new());
     comp.compress();
     let out = comp.take_drain().unwrap();
+    if let Some((i, want, got)) = desync.get() {
+        return Err(Failure::new("matcher_protocol_broken", format!("the compressor asked for the sequences of space #{i} ({want} bytes in the script) after committing a space of {got} bytes: an earlier space was neither committed + skipped nor matched")));
+    }
     verify_frame(&script.data, &out, "scripted matcher")?;
     // the emitted sequences are the scripted ones (for blocks stored compressed)
     let info = frame::walk(&out, &WalkOpts::default()).map_err(|e| Failure::new("malformed_frame", format!("strict walker rejects the frame: {e}; frame {}", hexhead(&out))))?;
@@ -404,6 +595,7 @@ pub fn check(case: &Case, ctx: &mut CaseCtx) -> CaseResult {
     ctx.feat(match case {
         Case::Generated(_) => "script:generated",
         Case::Reference(_) => "script:reference_parse",
+        Case::Tracking(_) => unreachable!(),
     });
     ctx.feat_if(uncompressed, "level:uncompressed");
     ctx.nontrivial = outside_builtin;
@@ -415,7 +607,7 @@ pub fn check(case: &Case, ctx: &mut CaseCtx) -> CaseResult {
 }
 
 pub fn run(eng: &Engine) {
-    eng.set_rule("a scripted matcher implementing the public Matcher trait replays a generated parse that is valid by construction (data and parse generated together: windows 2^10..2^23 spanning many blocks, block shapes biased to the interface's corners: up to one sequence per 3 bytes (>= 32512 / 32768 per block), all literal lengths 0, all match lengths 3, lengths at every code boundary, ll up to 131069, ml up to 131072, > 1024 equal literals, literals around the 1 KiB / 16 KiB thresholds, incompressible blocks followed by Huffman-friendly ones, offsets at the far edge of the window) or a parse produced by ZSTD_generateSequences (levels 1..19, min-match 3); oracle: compress() returns, libzstd and this crate decode the frame to the input, the strict walker finds exactly the scripted sequences in every block stored compressed; non-trivial = the parse lies outside what the built-in matcher can emit (a match of length 3 or 4, an offset > 128 KiB, or > 26214 sequences in a block); distinct by frame hash");
+    eng.set_rule("a scripted matcher implementing the public Matcher trait replays a generated parse that is valid by construction (data and parse generated together: windows 2^10..2^23 spanning many blocks, block shapes biased to the interface's corners: up to one sequence per 3 bytes (>= 32512 / 32768 per block), all literal lengths 0, all match lengths 3, lengths at every code boundary, ll up to 131069, ml up to 131072, > 1024 equal literals, literals around the 1 KiB / 16 KiB thresholds, incompressible blocks followed by Huffman-friendly ones, offsets at the far edge of the window) or a parse produced by ZSTD_generateSequences (levels 1..19, min-match 3); a third family is a history-keeping matcher that knows only what the compressor commits to it (spaces of 1 B..128 KiB, windows 2^10..2^20 incl. non-powers of two, min-match 3..6, greedy hash search over its own copy of the committed spaces, reused for up to 3 frames) - its matches are true for the stream exactly if the compressor hands it every byte of the stream, also for blocks it stores raw or RLE; oracle: compress() returns, libzstd and this crate decode the frame to the input, the strict walker finds exactly the scripted sequences in every block stored compressed; non-trivial = the parse lies outside what the built-in matcher can emit (a match of length 3 or 4, an offset > 128 KiB, or > 26214 sequences in a block), or a history-keeping matcher whose match reaches into an earlier space; distinct by frame hash");
     eng.assume("matcher spaces have a length >= 1; the matcher never lies about its data");
     let tier = eng.tier;
     let n = eng.tier.pick(30_000, 500_000);
